@@ -219,6 +219,16 @@ func (s *Server) Run(addr string, opt ...Option) error {
 		conn.disablePanicRecovery = s.disablePanicRecovery
 		localConnID := connID
 		s.connWg.Add(1)
+		// apply the configured timeouts before the shutdown watcher below can
+		// run; set later, they could replace the deadlines the watcher sets
+		// and leave a silent client blocking Stop until the timeout expires
+		var deadlineErr error
+		if s.readTimeout != 0 {
+			deadlineErr = c.SetReadDeadline(time.Now().Add(s.readTimeout))
+		}
+		if deadlineErr == nil && s.writeTimeout != 0 {
+			deadlineErr = c.SetWriteDeadline(time.Now().Add(s.writeTimeout))
+		}
 		connDone := make(chan struct{})
 		go func() {
 			// when the server is stopped, interrupt reads and writes that are
@@ -260,17 +270,9 @@ func (s *Server) Run(addr string, opt ...Option) error {
 					}
 				}()
 			}
-			if s.readTimeout != 0 {
-				if err := c.SetReadDeadline(time.Now().Add(s.readTimeout)); err != nil {
-					s.logger.Error("unable to set read deadline", "op", op, "err", err.Error())
-					return
-				}
-			}
-			if s.writeTimeout != 0 {
-				if err := c.SetWriteDeadline(time.Now().Add(s.writeTimeout)); err != nil {
-					s.logger.Error("unable to set write deadline", "op", op, "err", err.Error())
-					return
-				}
+			if deadlineErr != nil {
+				s.logger.Error("unable to set read/write deadline", "op", op, "err", deadlineErr.Error())
+				return
 			}
 			if err := conn.serveRequests(); err != nil {
 				s.logger.Error("error handling conn", "op", op, "conn", localConnID, "err", err.Error())
